@@ -55,5 +55,5 @@ func TestVerifC13Enum(t *testing.T) {
 	r.Exhaustive(true)
 	r.Note("sequences", spec.total())
 	r.Floor("stale_requests_rejected", 500)
-	r.Floor("stale_requests_from_formerly_valid_identity_rejected", int64(r.N(50, 5000)))
+	r.Floor("stale_requests_from_formerly_valid_identity_rejected", int64(r.N(50, 500)))
 }
